@@ -112,4 +112,69 @@ theorem sqrtStd_neg (v : Int) (h : v < 0) (hmin : -9223372036854775808 ≤ v) : 
   rw [this]
   exact fpToFixed_nan b64
 
+/-- `sqrt_std_math` returns for EVERY positive int64 argument (no range restriction; the cast is always in range) -/
+theorem sqrtStd_pos_ok (n : Int) (h0 : 1 ≤ n) (h1 : n ≤ 9223372036854775807) : ∃ r : Int, sqrtStd n = .ok r := by
+  have hp : (2 : Nat) ^ b64.p = 9007199254740992 := by decide
+  have hpz : (b64.p : ℤ) = 53 := by decide
+  obtain ⟨q, E, R0, hres, hval, herr0, _, _, _⟩ := fixedToFp_val b64 good_b64 n (by omega) (by omega) (by omega)
+  have hnabs : ((n.natAbs : ℕ) : ℝ) = (n : ℝ) := by
+    rw [← Int.cast_natCast, Int.natAbs_of_nonneg (by omega)]
+  rw [hnabs] at herr0
+  have hneg : decide (n < 0) = false := by simp; omega
+  rw [hneg] at hres
+  have hnr1 : (1 : ℝ) ≤ (n : ℝ) := by exact_mod_cast h0
+  have hnr2 : (n : ℝ) ≤ 9223372036854775807 := by exact_mod_cast h1
+  set ε : ℝ := (2 : ℝ) ^ (-(b64.p : ℤ)) with hε
+  have hεv : ε = 1 / 9007199254740992 := by rw [hε, hpz]; norm_num
+  have hε0 : 0 < ε := by rw [hεv]; norm_num
+  obtain ⟨r1, r2⟩ := abs_le.mp herr0
+  have hnε : (n : ℝ) * ε ≤ (n : ℝ) * (1 / 2) := mul_le_mul_of_nonneg_left (by rw [hεv]; norm_num) (by linarith)
+  have hR0lo : (1 : ℝ) / 2 ≤ R0 := by linarith
+  have hR0hi : R0 ≤ 13835058055282163712 := by linarith
+  have hqpos : 0 < q := by
+    rcases Nat.eq_zero_or_pos q with h | h
+    · subst h; rw [Nat.cast_zero, zero_mul] at hval
+      have : 0 < R0 / 65536 := by positivity
+      linarith
+    · exact h
+  have hlo : (2 : ℝ) ^ (2 * (-9 : ℤ)) ≤ (q : ℝ) * (2 : ℝ) ^ E := by
+    rw [hval]; have : ((2 : ℝ) ^ (2 * (-9 : ℤ))) = 1 / 262144 := by norm_num
+    rw [this, le_div_iff₀ (by norm_num)]; linarith
+  have hhi : (q : ℝ) * (2 : ℝ) ^ E < (2 : ℝ) ^ (2 * (24 : ℤ)) := by
+    rw [hval]; have : ((2 : ℝ) ^ (2 * (24 : ℤ))) = 281474976710656 := by norm_num
+    rw [this, div_lt_iff₀ (by norm_num)]; linarith
+  obtain ⟨q', er, hsq, her1, her2, hq'le, herr⟩ := sqrt_spec b64 q E hqpos (-9) 24 hlo hhi (by decide) (by decide)
+  rw [hval] at herr
+  set R : ℝ := Real.sqrt (R0 / 65536) with hR
+  have hRpos : 0 < R := Real.sqrt_pos.mpr (by positivity)
+  have hRlt : R < 16777216 := by
+    rw [hR, Real.sqrt_lt' (by norm_num)]
+    rw [div_lt_iff₀ (by norm_num)]; linarith
+  set S : ℝ := (q' : ℝ) * (2 : ℝ) ^ er with hS
+  obtain ⟨s1, s2⟩ := abs_le.mp herr
+  have hRε : R * ε ≤ R * (1 / 2) := mul_le_mul_of_nonneg_left (by rw [hεv]; norm_num) hRpos.le
+  have hSpos : 0 < S := by linarith
+  have hq'pos : 0 < q' := by
+    rcases Nat.eq_zero_or_pos q' with h | h
+    · rw [hS, h, Nat.cast_zero, zero_mul] at hSpos; exact absurd hSpos (lt_irrefl _)
+    · exact h
+  have hSlt : S < 2147483647 := by linarith
+  obtain ⟨Mq, Kq, hMq, hMlt, hKlo⟩ : ∃ (Mq : Nat) (Kq : ℤ), S = (Mq : ℝ) * (2 : ℝ) ^ Kq ∧ Mq < 2 ^ b64.p ∧ b64.emin ≤ Kq := by
+    rcases Nat.lt_or_ge q' (2 ^ b64.p) with hlt | hge
+    · exact ⟨q', er, rfl, hlt, her1⟩
+    · have : q' = 2 ^ b64.p := by omega
+      refine ⟨1, er + (b64.p : ℤ), ?_, by rw [hp]; norm_num, by omega⟩
+      rw [hS, this, zpow_add₀ (by norm_num), zpow_natCast]; push_cast; ring
+  obtain ⟨mag, W, hto, _⟩ := fpToFixed_core b64 good_b64 false q' er hq'pos Mq Kq hMq hMlt hKlo hSlt
+  refine ⟨(mag : Int), ?_⟩
+  unfold sqrtStd
+  rw [hres, hsq, hto]; rfl
+
+/-- `sqrt_std_math` returns for every int64 argument except INT64_MIN -/
+theorem sqrtStd_total (v : Int) (h1 : -9223372036854775808 ≤ v) (h2 : v ≤ 9223372036854775807) : ∃ r : Int, sqrtStd v = .ok r := by
+  rcases lt_trichotomy v 0 with h | h | h
+  · exact ⟨_, sqrtStd_neg v h h1⟩
+  · subst h; exact ⟨0, sqrtStd_zero⟩
+  · exact sqrtStd_pos_ok v (by omega) h2
+
 end FixedMath
